@@ -120,6 +120,7 @@ func Fresh() (*Bed, error) {
 	if b.rpc != nil {
 		b.rpc.SetTaps(nil, nil)
 		b.rpc.SetFaults(nil, nil)
+		b.rpc.SetBackend(nil)
 	}
 	return b, nil
 }
